@@ -110,6 +110,20 @@ def FloorArm.eval : FloorArm → Int → Int
 def floor (n : Int) : Int :=
   if floorCmp.eval n floorConst then floorThen.eval n else floorElse.eval n
 
+/-- `SSL_CTX_set_min_proto_version` on a TLS context (OpenSSL `ssl_set_version_bound`, assumed): 0 clears the bound; a TLS
+number of the library (SSL 3.0 … TLS 1.3) becomes the bound; any other number — rejected (unknown, e.g. 0x0305) or
+accepted and ignored (a DTLS number) — changes nothing. -/
+def libSetMin (cur : Option Int) (v : Int) : Option Int :=
+  if v == 0 then none else if 768 ≤ v && v ≤ 772 then some v else cur
+
+/-- mirrors the whole of `applyTls12Floor`: set `floor n`, then (when the source has it) read the effective minimum back
+and repair it; the result is the context's EFFECTIVE minimum (`none` = no minimum at all) -/
+def applyFloorMin (cur : Option Int) (n : Int) : Option Int :=
+  let m := libSetMin cur (floor n)
+  match floorReadback with
+  | none => m
+  | some (a, b) => if m.getD 0 < a then libSetMin m b else m
+
 /-! ## `initTls` -/
 
 /-- where the context's verification store comes from -/
@@ -144,7 +158,7 @@ def stepCtx (e : Env) (f : Files) (c : Ctx) (s : Step) : Option Ctx :=
     | .setVerify fl => some { c with verify := fl }
     | .defaultVerifyPaths => some { c with trust := .default }
     | .fail => none
-    | .applyFloor => some { c with minProto := some (floor e.cfg.minVersion) }
+    | .applyFloor => some { c with minProto := applyFloorMin c.minProto e.cfg.minVersion }
     | .other _ => some c
   else some c
 
@@ -299,6 +313,46 @@ def httpTarget (u : UrlHost) (resolves : Bool) : Target :=
 
 def httpClientPlan (h : HttpTls) (tf : TFiles) (https : Bool) (u : UrlHost) (resolves : Bool) : Plan :=
   connectPlan (httpClientCfg h) tf (if https then httpClientHttpsReq else httpClientHttpReq) (httpTarget u resolves)
+
+/-! ### URL scheme spellings (`parseUrl`, `ParsedUrl::isHttps`) -/
+
+/-- does `parseUrl` accept a URL with this scheme spelling (rest of the URL well-formed): the regex group is `https?` -/
+def urlAccepted (scheme : String) : Bool :=
+  let s := if urlRegexIcase then scheme.toLower else scheme
+  s == "http" || s == "https"
+
+/-- `ParsedUrl::isHttps()` for the scheme as `parseUrl` stores it -/
+def urlIsHttps (scheme : String) : Bool :=
+  (if urlSchemeNormalised || isHttpsCaseInsensitive then scheme.toLower else scheme) == isHttpsLiteral
+
+/-- the port when the URL names none -/
+def urlDefaultPort (scheme : String) : Nat :=
+  if (if urlSchemeNormalised || defaultPortCaseInsensitive then scheme.toLower else scheme) == "https" then httpsDefaultPort else httpDefaultPort
+
+/-- a request for `scheme://host…`: `none` = rejected ("Invalid URL format", nothing is sent) -/
+def httpUrlPlan (h : HttpTls) (tf : TFiles) (scheme : String) (u : UrlHost) (resolves : Bool) : Option Plan :=
+  if urlAccepted scheme then some (httpClientPlan h tf (urlIsHttps scheme) u resolves) else none
+
+/-! ### the connection cache (`acquireConnection`), for a sequence of requests to ONE host:port -/
+
+structure CacheReq where
+  https : Bool
+  dropAfter : Bool      -- the connection is evicted after this exchange (Connection: close, failure, idle)
+  deriving DecidableEq, Repr
+
+/-- one request: (cache afterwards, TLS mode of the session that carries the request, a new connection was opened) -/
+def cacheStep (cached : Option Mode) (r : CacheReq) : Option Mode × Mode × Bool :=
+  let want := if r.https then httpClientHttpsReq else httpClientHttpReq
+  let use : Mode × Bool :=
+    match cached with
+    | some m => if !cacheReuseChecksTlsMode || m == want then (m, false) else (want, true)
+    | none => (want, true)
+  (if r.dropAfter then none else some use.1, use.1, use.2)
+
+/-- (request was https, mode of the carrying session, new connection) per request -/
+def cacheRun : Option Mode → List CacheReq → List (Bool × Mode × Bool)
+  | _, [] => []
+  | c, r :: rs => (r.https, (cacheStep c r).2.1, (cacheStep c r).2.2) :: cacheRun (cacheStep c r).1 rs
 
 /-- `HttpServer::TlsConfig` -/
 structure HttpSrvTls where
